@@ -2,6 +2,7 @@ package main
 
 import (
 	"go/token"
+	"go/types"
 	"strings"
 
 	"golang.org/x/tools/go/ssa"
@@ -368,4 +369,564 @@ func strictSame(a, b ssa.Value) bool {
 		}
 	}
 	return true
+}
+
+// ownerRoot: the named function a piece of code belongs to for who-may-write/call rules: the enclosing declared function
+// of a literal, and — for an unexported helper that is referenced from exactly one place in live first-party code of the
+// same package — the owner of that place (so extracting a block or a closure into a helper does not change ownership).
+func (c *Ctx) ownerRoot(f *ssa.Function) *ssa.Function {
+	for depth := 0; depth < 4; depth++ {
+		f = enclosingRoot(f)
+		obj, ok := f.Object().(*types.Func)
+		if !ok || obj.Exported() || f.Pkg == nil {
+			return f
+		}
+		c.buildCallers()
+		sites := c.callersOf[f]
+		if len(sites) != 1 || sites[0].caller.Pkg != f.Pkg {
+			return f
+		}
+		// no other reference as a value
+		if len(c.funcValueRefs(f, c.pkgFuncs(rel(f.Pkg.Pkg.Path())))) > 0 {
+			return f
+		}
+		f = sites[0].caller
+	}
+	return enclosingRoot(f)
+}
+
+// goActual maps a parameter of the function started by `go f(args)` to the actual argument at the go statement.
+func goActual(g *ssa.Go, lit *ssa.Function, v ssa.Value) ssa.Value {
+	par, ok := stripConv(v).(*ssa.Parameter)
+	if !ok || lit == nil {
+		return v
+	}
+	for k, lp := range lit.Params {
+		if lp == par && k < len(g.Call.Args) {
+			return g.Call.Args[k]
+		}
+	}
+	return v
+}
+
+// ---- values returned by first-party helpers ----
+
+// paramActual remembers, for the helpers entered by calleeSources, the actual argument bound to each parameter at the
+// call site that was followed (a helper reached from two different call sites keeps the first binding and is marked
+// ambiguous, after which resolveParam refuses to resolve it).
+var (
+	paramActual    = map[*ssa.Parameter]ssa.Value{}
+	paramAmbiguous = map[*ssa.Parameter]bool{}
+)
+
+// calleeSources: when v is (a component of) the result of a static call to a first-party function with a body, the
+// values that function can return in that position; parameters of the helper are bound to the call's arguments.
+func calleeSources(v ssa.Value) ([]ssa.Value, bool) {
+	v = stripConv(v)
+	idx := 0
+	var call *ssa.Call
+	switch x := v.(type) {
+	case *ssa.Call:
+		call = x
+	case *ssa.Extract:
+		cc, ok := x.Tuple.(*ssa.Call)
+		if !ok {
+			return nil, false
+		}
+		call, idx = cc, x.Index
+	default:
+		return nil, false
+	}
+	f := staticFn(call)
+	if f == nil || f.Pkg == nil || !isFirstParty(f.Pkg.Pkg.Path()) || len(f.Blocks) == 0 {
+		return nil, false
+	}
+	for k, p := range f.Params {
+		if k < len(call.Call.Args) {
+			if old, ok := paramActual[p]; ok && old != call.Call.Args[k] {
+				paramAmbiguous[p] = true
+			}
+			paramActual[p] = call.Call.Args[k]
+		}
+	}
+	var out []ssa.Value
+	for _, r := range realReturns(f) {
+		out = append(out, retVals(r, idx)...)
+	}
+	return out, len(out) > 0
+}
+
+// resolveParam: the actual argument behind a helper's parameter, when calleeSources entered that helper from one site.
+func resolveParam(v ssa.Value) ssa.Value {
+	for depth := 0; depth < 3; depth++ {
+		p, ok := stripConv(v).(*ssa.Parameter)
+		if !ok || paramAmbiguous[p] {
+			return v
+		}
+		a, ok := paramActual[p]
+		if !ok {
+			return v
+		}
+		v = a
+	}
+	return v
+}
+
+// valueSourcesIP: valueSources that also looks through the results of first-party helpers (see calleeSources).
+func valueSourcesIP(v ssa.Value, root *ssa.Function, depth int) []ssa.Value {
+	var out []ssa.Value
+	for _, x := range valueSources(v, root, depth) {
+		if cs, ok := calleeSources(x); ok && depth < 3 {
+			for _, e := range cs {
+				out = append(out, valueSourcesIP(e, root, depth+1)...)
+			}
+			continue
+		}
+		out = append(out, x)
+	}
+	return out
+}
+
+// withHelpers: f, its literals, and the unexported same-package helpers owned by f (see ownerRoot), with their literals.
+func (c *Ctx) withHelpers(f *ssa.Function) []*ssa.Function {
+	seen := map[*ssa.Function]bool{}
+	var out []*ssa.Function
+	var add func(g *ssa.Function, depth int)
+	add = func(g *ssa.Function, depth int) {
+		for _, x := range withAnon(g) {
+			if seen[x] {
+				continue
+			}
+			seen[x] = true
+			out = append(out, x)
+			if depth >= 3 {
+				continue
+			}
+			eachInstr(x, func(i ssa.Instruction) {
+				ci, ok := asCall(i)
+				if !ok {
+					return
+				}
+				t := staticFn(ci)
+				if t == nil || t.Pkg != f.Pkg || len(t.Blocks) == 0 || seen[t] {
+					return
+				}
+				if t != enclosingRoot(f) && c.ownedBy(t, enclosingRoot(f)) {
+					add(t, depth+1)
+				}
+			})
+		}
+	}
+	add(f, 0)
+	return out
+}
+
+// ownedBy: walking up from helper t through single-reference unexported helpers reaches root.
+func (c *Ctx) ownedBy(t, root *ssa.Function) bool {
+	g := t
+	for depth := 0; depth < 4; depth++ {
+		g = enclosingRoot(g)
+		if g == root {
+			return true
+		}
+		obj, ok := g.Object().(*types.Func)
+		if !ok || obj.Exported() || g.Pkg == nil {
+			return false
+		}
+		c.buildCallers()
+		sites := c.callersOf[g]
+		if len(sites) != 1 || sites[0].caller.Pkg != g.Pkg {
+			return false
+		}
+		if len(c.funcValueRefs(g, c.pkgFuncs(rel(g.Pkg.Pkg.Path())))) > 0 {
+			return false
+		}
+		g = sites[0].caller
+	}
+	return false
+}
+
+// clauseKeyInjective: a cache-key function hashes its components in a form that separates them, so that two different
+// component tuples cannot produce the same key text ("2"+"10" vs "21"+"0").
+func clauseKeyInjective(c *Ctx, id string, fns [][2]string) {
+	c.clause(id, "T5", "cache keys are hashed from all of their components with a separator between any two numeric components (distinct chunks cannot share a key)", len(fns))
+	for _, x := range fns {
+		f := c.mustFn(x[0], x[1])
+		if f == nil {
+			continue
+		}
+		key := c.fnKey(f) + ":key-separated"
+		var hashed ssa.Value
+		for _, ci := range callsIn(f, func(id string, _ ssa.CallInstruction) bool {
+			return strings.HasPrefix(id, "crypto/sha256.Sum") || strings.HasPrefix(id, "crypto/sha512.Sum") || id == "github.com/opencontainers/go-digest.FromBytes" || id == "github.com/opencontainers/go-digest.FromString"
+		}) {
+			hashed = ci.Common().Args[0]
+		}
+		if hashed == nil {
+			c.unk(key, f.Pos(), "the key is not a hash of a formatted component list")
+			continue
+		}
+		items, ok := formattedItems(hashed, 0)
+		if !ok {
+			c.unk(key, f.Pos(), "cannot read how the hashed bytes are assembled")
+			continue
+		}
+		// items: "V" for a formatted value, "L" for a non-empty literal
+		good, nv := true, 0
+		prev := ""
+		for _, it := range items {
+			if it == "V" {
+				nv++
+				if prev == "V" {
+					good = false
+				}
+			}
+			prev = it
+		}
+		want := len(f.Params)
+		if f.Signature.Recv() != nil {
+			want = 0 // counted from the uses below
+		}
+		c.verdict(key, f.Pos(), good && nv >= 2 && nv >= want, "components are separated by literals", "two components of the cache key are concatenated without a separator: different (id, offset, size) tuples can hash to the same key and a cache hit returns another chunk's bytes")
+	}
+}
+
+// formattedItems flattens the construction of a byte/string value into value ("V") and literal ("L") items.
+func formattedItems(v ssa.Value, depth int) ([]string, bool) {
+	v = stripConv(v)
+	if depth > 8 {
+		return nil, false
+	}
+	if s, ok := constString(v); ok {
+		if s == "" {
+			return nil, true
+		}
+		return []string{"L"}, true
+	}
+	switch x := v.(type) {
+	case *ssa.Const:
+		return nil, true // nil slice
+	case *ssa.Slice:
+		// buf[:0] of a fresh array
+		if x.High != nil {
+			if n, ok := constInt(x.High); ok && n == 0 {
+				return nil, true
+			}
+		}
+		return formattedItems(x.X, depth+1)
+	case *ssa.BinOp:
+		if x.Op != token.ADD {
+			return nil, false
+		}
+		a, ok1 := formattedItems(x.X, depth+1)
+		b, ok2 := formattedItems(x.Y, depth+1)
+		return append(a, b...), ok1 && ok2
+	case *ssa.Call:
+		id := calleeID(x)
+		switch {
+		case id == "fmt.Sprintf" || id == "fmt.Appendf":
+			fi := 0
+			var pre []string
+			if id == "fmt.Appendf" {
+				fi = 1
+				p, ok := formattedItems(x.Call.Args[0], depth+1)
+				if !ok {
+					return nil, false
+				}
+				pre = p
+			}
+			format, ok := constString(x.Call.Args[fi])
+			if !ok {
+				return nil, false
+			}
+			out := pre
+			lit := false
+			for i := 0; i < len(format); i++ {
+				if format[i] == '%' && i+1 < len(format) {
+					if format[i+1] == '%' {
+						lit = true
+						i++
+						continue
+					}
+					if lit {
+						out = append(out, "L")
+						lit = false
+					}
+					// skip flags/width up to the verb
+					j := i + 1
+					for j < len(format) && strings.ContainsRune("+-# 0123456789.", rune(format[j])) {
+						j++
+					}
+					out = append(out, "V")
+					i = j
+					continue
+				}
+				lit = true
+			}
+			if lit {
+				out = append(out, "L")
+			}
+			return out, true
+		case strings.HasPrefix(id, "strconv.Append"):
+			a, ok := formattedItems(x.Call.Args[0], depth+1)
+			return append(a, "V"), ok
+		case strings.HasPrefix(id, "strconv.Format") || id == "strconv.Itoa":
+			return []string{"V"}, true
+		}
+		if b, ok := x.Call.Value.(*ssa.Builtin); ok && b.Name() == "append" {
+			a, ok1 := formattedItems(x.Call.Args[0], depth+1)
+			if len(x.Call.Args) < 2 {
+				return a, ok1
+			}
+			// appended elements: a constant string/byte slice counts as a literal, anything else as a value
+			it := "V"
+			if s, ok := constString(x.Call.Args[1]); ok && s != "" {
+				it = "L"
+			} else if va := varargs(x.Call.Args[1]); len(va) > 0 {
+				allConst := true
+				for _, e := range va {
+					if _, ok := stripConv(e).(*ssa.Const); !ok {
+						allConst = false
+					}
+				}
+				if allConst {
+					it = "L"
+				}
+			}
+			return append(a, it), ok1
+		}
+		return nil, false
+	case *ssa.Alloc:
+		return nil, true // fresh buffer
+	case *ssa.UnOp:
+		if rv := reachingVals(v); len(rv) == 1 && rv[0] != v {
+			return formattedItems(rv[0], depth+1)
+		}
+		return []string{"V"}, true
+	case *ssa.Parameter, *ssa.Field, *ssa.FieldAddr, *ssa.Extract:
+		return []string{"V"}, true
+	}
+	return nil, false
+}
+
+// clausePreReadAccounting: estargz.(*fileReader).ReadAt hands neighbouring chunks of a shared stream to the pre-read
+// callback; the stream position it keeps must advance by what the callback really consumed (a callback may return
+// without draining, e.g. when the chunk is already cached).
+func clausePreReadAccounting(c *Ctx, id string) {
+	c.clause(id, "T9", "after a neighbouring chunk was offered to the pre-read callback the stream position advances by the bytes actually consumed (counting wrapper), or the rest of the chunk is drained first", 1)
+	f := c.mustFn("estargz", "(*fileReader).ReadAt")
+	if f == nil {
+		return
+	}
+	var pre *ssa.Call
+	eachInstr(f, func(i ssa.Instruction) {
+		if call, ok := i.(*ssa.Call); ok {
+			if _, ok := isFieldLoadAny(call.Call.Value, "preRead"); ok {
+				pre = call
+			}
+		}
+	})
+	if pre == nil {
+		c.unk(c.fnKey(f)+":pre-read", f.Pos(), "pre-read callback is no longer invoked here")
+		return
+	}
+	rd := stripConv(pre.Call.Args[len(pre.Call.Args)-1])
+	if mi, ok := rd.(*ssa.MakeInterface); ok {
+		rd = stripConv(mi.X)
+	}
+	// the first addition to the position after the callback
+	good, n := false, 0
+	eachInstr(f, func(i ssa.Instruction) {
+		b, ok := i.(*ssa.BinOp)
+		if !ok || b.Op != token.ADD || !dominatesInstr(pre, b) {
+			return
+		}
+		carried := false
+		for _, r := range *b.Referrers() {
+			if _, ok := r.(*ssa.Phi); ok {
+				carried = true
+			}
+		}
+		if !carried {
+			return
+		}
+		n++
+		add := stripConv(b.Y)
+		// (a) the counter of the wrapper that was handed to the callback
+		if fa, ok := loadOfField(add); ok && stripConv(fa.X) == rd {
+			good = true
+			return
+		}
+		// (b) the chunk size, after draining what the callback left
+		if _, ok := isFieldLoadAny(add, "ChunkSize"); ok {
+			for _, d := range callsIn(f, idIs("io.Copy", "io.CopyN")) {
+				if g, ok := loadOf(stripConv(d.Common().Args[0])); ok {
+					if gl, ok := g.(*ssa.Global); !ok || gl.Name() != "Discard" {
+						continue
+					}
+				} else if mi, ok := stripConv(d.Common().Args[0]).(*ssa.MakeInterface); ok {
+					_ = mi
+				}
+				src := stripConv(d.Common().Args[1])
+				if mi, ok := src.(*ssa.MakeInterface); ok {
+					src = stripConv(mi.X)
+				}
+				if (src == rd || sameValue(src, pre.Call.Args[len(pre.Call.Args)-1])) && dominatesInstr(pre, d) && dominatesInstr(d, b) {
+					good = true
+				}
+			}
+		}
+	})
+	c.verdict(c.fnKey(f)+":position-after-pre-read", pre.Pos(), good && n > 0, "position advances by the consumed byte count", "after the pre-read callback the position advances by the chunk size although the callback may not have consumed the chunk: the following chunks (and the requested one) are read from the wrong offset of the stream")
+}
+
+// clauseDirLinkCount: TOCEntry.addChild counts the ".." link of every sub-directory it is given.
+func clauseDirLinkCount(c *Ctx, id string) {
+	c.clause(id, "T1", "addChild counts a '..' link for every child of type dir: the increment can be bypassed only on the 'not a directory' edge (the bolt store's setChild counts the same way)", 1)
+	f := c.mustFn("estargz", "(*TOCEntry).addChild")
+	if f == nil {
+		return
+	}
+	var incs []ssa.Instruction
+	eachInstr(f, func(i ssa.Instruction) {
+		if st, ok := i.(*ssa.Store); ok {
+			if fa, ok := st.Addr.(*ssa.FieldAddr); ok && fieldName(fa) == "NumLink" {
+				incs = append(incs, i)
+			}
+		}
+	})
+	notDir := condEdges(f, func(cond ssa.Value) int {
+		b, ok := cond.(*ssa.BinOp)
+		if !ok || (b.Op != token.EQL && b.Op != token.NEQ) {
+			return 0
+		}
+		for _, pair := range [][2]ssa.Value{{b.X, b.Y}, {b.Y, b.X}} {
+			if _, ok := isFieldLoadAny(pair[0], "Type"); ok {
+				if s, ok := constString(pair[1]); ok && s == "dir" {
+					if b.Op == token.EQL {
+						return -1
+					}
+					return 1
+				}
+			}
+		}
+		return 0
+	})
+	if len(incs) == 0 || len(notDir) == 0 {
+		c.bad(c.fnKey(f)+":dir-link", f.Pos(), "addChild no longer counts the '..' link of sub-directories")
+		return
+	}
+	hit, path := reach(f, nil, isReturn, newCuts().addInstr(incs...).addEdges(notDir))
+	c.verdict(c.fnKey(f)+":dir-link", f.Pos(), hit == nil, "every directory child increments the parent's link count", "a directory child can be registered without counting its '..' link (e.g. when the name is registered twice): the memory store reports another nlink than the bolt store: "+c.pathStr(f, path))
+}
+
+// clauseMountRegistrationRolledBack: (*filesystem).Mount registers the layer under the mountpoint before the FUSE server is
+// up; when a later step fails, the layer reference is dropped (l.Done()), so the registration must be dropped as well:
+// Check(mountpoint) answers from that table.
+func clauseMountRegistrationRolledBack(c *Ctx, id string) {
+	c.clause(id, "T2", "every error exit of filesystem.Mount after fs.layer[mountpoint] was set removes that entry again (directly or by a deferred function acting only on failure): Check must not find a layer for a mountpoint whose mount failed", 1)
+	f := c.mustFn("fs", "(*filesystem).Mount")
+	if f == nil {
+		return
+	}
+	isLayerMap := func(v ssa.Value) bool {
+		_, ok := isFieldLoadAny(v, "layer")
+		return ok
+	}
+	var reg ssa.Instruction
+	eachInstr(f, func(i ssa.Instruction) {
+		if mu, ok := i.(*ssa.MapUpdate); ok && isLayerMap(mu.Map) {
+			reg = i
+		}
+	})
+	if reg == nil {
+		c.unk(c.fnKey(f)+":registration", f.Pos(), "Mount no longer registers the layer in fs.layer")
+		return
+	}
+	isDelete := func(i ssa.Instruction) bool {
+		call, ok := i.(*ssa.Call)
+		if !ok {
+			return false
+		}
+		b, ok := call.Call.Value.(*ssa.Builtin)
+		return ok && b.Name() == "delete" && isLayerMap(call.Call.Args[0])
+	}
+	// a deferred literal that deletes the entry only when the named error result is set
+	var rollbacks []ssa.Instruction
+	eachInstr(f, func(i ssa.Instruction) {
+		d, ok := i.(*ssa.Defer)
+		if !ok {
+			return
+		}
+		mc, ok := d.Call.Value.(*ssa.MakeClosure)
+		if !ok {
+			return
+		}
+		lit := mc.Fn.(*ssa.Function)
+		failed := condEdges(lit, func(cond ssa.Value) int {
+			b, ok := cond.(*ssa.BinOp)
+			if !ok || (b.Op != token.NEQ && b.Op != token.EQL) || !isNilConst(b.Y) {
+				return 0
+			}
+			p, ok := loadOf(stripConv(b.X))
+			if !ok {
+				return 0
+			}
+			fv, ok := p.(*ssa.FreeVar)
+			if !ok || !isErrorType(deref(fv.Type())) {
+				return 0
+			}
+			if b.Op == token.NEQ {
+				return 1
+			}
+			return -1
+		})
+		okDel := false
+		eachInstr(lit, func(j ssa.Instruction) {
+			if isDelete(j) {
+				if o, _ := mustPass(lit, j, newCuts().addEdges(failed)); o && len(failed) > 0 {
+					okDel = true
+				}
+			}
+		})
+		if okDel {
+			rollbacks = append(rollbacks, d)
+		}
+	})
+	var direct []ssa.Instruction
+	eachInstr(f, func(i ssa.Instruction) {
+		if isDelete(i) {
+			direct = append(direct, i)
+		}
+	})
+	good := true
+	detail := ""
+	n := 0
+	for _, r := range realReturns(f) {
+		if returnsNilError(r) {
+			continue
+		}
+		if hit, _ := reach(f, reg, isInstr(r), nil); hit == nil {
+			continue
+		}
+		n++
+		// covered by a rollback defer registered on every path to this return, or by a direct delete after the registration
+		covered := false
+		for _, d := range rollbacks {
+			if dominatesInstr(d, r) {
+				covered = true
+			}
+		}
+		if !covered {
+			if hit, path := reach(f, reg, isInstr(r), newCuts().addInstr(direct...)); hit == nil {
+				covered = true
+			} else {
+				detail = c.pathStr(f, path)
+			}
+		}
+		if !covered {
+			good = false
+		}
+	}
+	c.verdict(c.fnKey(f)+":registration-rolled-back", reg.Pos(), good && n > 0, "failed mounts leave no entry in fs.layer", "Mount can fail after registering the layer (FUSE server or WaitMount error) and leaves fs.layer[mountpoint] pointing at a layer whose reference was already dropped: Check(mountpoint) then reports an unmounted directory as available: "+detail)
 }
